@@ -196,6 +196,8 @@ func runCadence(a *App, mon *Mon, seed int64, c cadenceCase) {
 				op("start")
 			case "restart":
 				s.r.Restart()
+			case "pause-kill":
+				op("pause")
 			case "update-total":
 				if c.Module {
 					s.r.Mod(ModOp{Op: "update", CtxID: id, Consumer: hexs(cons), Total: c.Total + 1}, "")
@@ -218,6 +220,9 @@ func runCadence(a *App, mon *Mon, seed int64, c cadenceCase) {
 		if c.Op == "restart" && c.Start > 0 && b == c.OpAt+c.Start {
 			op("start")
 		}
+		if c.Op == "pause-kill" && b == c.OpAt+c.Start {
+			op("kill")
+		}
 		if c.Op == "kill" && c.Start > 0 && b == c.OpAt+c.Start {
 			op("start") // must be refused: completed is final
 		}
@@ -236,7 +241,7 @@ func cadenceCases() []cadenceCase {
 					out = append(out, cadenceCase{T: T, F: F, Total: total, Op: "none", Answer: ans})
 				}
 				span := int(F)*2 + int(T) + 1
-				for _, op := range []string{"pause", "kill", "update-total", "update-time", "pause-start-same", "restart"} {
+				for _, op := range []string{"pause", "kill", "update-total", "update-time", "pause-start-same", "restart", "pause-kill"} {
 					for at := 0; at <= span; at++ {
 						starts := []int{0}
 						if op == "pause" || op == "kill" {
@@ -244,6 +249,9 @@ func cadenceCases() []cadenceCase {
 						}
 						if op == "restart" {
 							starts = []int{0, 1, int(T) + 1}
+						}
+						if op == "pause-kill" {
+							starts = []int{0, 1, int(T)}
 						}
 						for _, st := range starts {
 							out = append(out, cadenceCase{T: T, F: F, Total: total, Op: op, OpAt: at, Start: st, Answer: (at + st) % 3})
@@ -667,6 +675,17 @@ func runDeposit(a *App, mon *Mon, seed int64, c depositCase) {
 		// after a zero-height restart the provider still belongs to its owner
 		s.r.Restart()
 	}
+	// two services whose names differ only in letter case, same provider, very different prices
+	s.define("pf")
+	s.define("PF")
+	hi := price("100")
+	himin := MinDeposit(p, mustPricing(hi)).Int64()
+	p5 := s.A.SignProv[5]
+	s.bind("pf", p5, o, himin, hi, 1)
+	s.bind("PF", p5, o, himin, price("1"), 1)
+	s.call("pf", []sdk.AccAddress{p5}, cons, 1000, 1, false, false, 0, 0)
+	s.block()
+	s.block() // the unanswered request is slashed: "pf" must fall below its own minimum
 	s.define("svc2")
 	s.bind("svc2", p1, s.A.Owners[1], min+nmin+1000, pr, 1) // another owner tries to take the provider over
 	s.bind("svc2", p1, o, min+nmin+1000, pr, 1)
@@ -1180,7 +1199,7 @@ func runCrowd(a *App, mon *Mon, seed int64, n int, nprov int) {
 	// p2 answers everything, p1 answers every other request: the rest times out together
 	for k, rid := range s.r.pre.PendingIDs() {
 		r := s.r.pre.Requests[rid]
-		if r.Provider.Equals(p2) || k%2 == 0 {
+		if r.Provider.Equals(p2) || (k/2)%2 == 0 { // (IDs alternate p1, p2: answer p1 for every other context)
 			s.respond(rid, r.Provider, 0)
 		}
 	}
@@ -1299,6 +1318,9 @@ func directedJobs(prop, tier string, seed int64) []job {
 	for v := 0; v < q(4*weight("C15", "C17", "C18"), 300); v++ {
 		v := v
 		add("names", func(a *App, mon *Mon) *Run { runNames(a, mon, seed, v); return mon.run })
+	}
+	if prop == "C20" || prop == "all" {
+		jobs = append([]job{{"wall-clock-probe", func(a *App, mon *Mon) { wallClockProbe(a, mon, seed) }}}, jobs...)
 	}
 	return jobs
 }
